@@ -153,6 +153,15 @@ def check(res):
         if any(e.kind == "dev" and e.d["dev"] == motor and e.d["method"] == "set" and e.d.get("fault") and close(e.d["value"], ini) for e in evs):
             res.notes["fault_in_the_reset_move_itself"] = 1
             halted = True
+    # likewise a device failure delivered while the reset is already under way (e.g. a pause during the reset's
+    # wait, then the replayed earlier move fails): the exception is thrown into the reset plan itself
+    for f in [e for e in evs if e.kind == "dev" and e.d.get("fault")]:
+        for motor in exp["offsets"]:
+            ini = case["devices"][motor]["initial"]
+            msets = [e for e in evs if e.kind == "dev" and e.d["dev"] == motor and e.d["method"] == "set" and e.seq < f.seq]
+            if len(msets) > 1 and any(close(e.d["value"], ini) for e in msets[1:]):
+                res.notes["failure_during_reset"] = 1
+                halted = True
     if term is not None:
         for motor in exp["offsets"]:
             ini = case["devices"][motor]["initial"]
